@@ -8,6 +8,7 @@ claimed={
  "C02":("other","structural necessary conditions: support decision lists, tied/untied PMF and CDF formulas, mirror flip, the Mann-Whitney recurrence in UDist.p, makeUmemo coefficient recurrence, sibling agreement of its two passes, K=2 base case with floor division, step term; D-floor; not the combinatorial exactness of the counts","formula/recurrence conformance and sibling agreement on go/ssa (engine B) + D-floor"),
  "C03":("other","structural necessary conditions: no-mutation of arguments (engine A), error-guard reach conditions, method-selection condition over the two limit variables, normal-approximation formulas with tie and continuity correction, result plumbing; not 0<=P<=1 or invariance laws","effect analysis + reach-condition rules + formula conformance"),
  "C04":("other","structural necessary conditions: the statistic/DoF/tail formulas and error-guard reach conditions extracted from go/ssa are algebraically identical to the textbook formulas on every path; not numerical accuracy","formula conformance by algebraic value numbering on go/ssa + reach-condition rules"),
+ "C09":("other","structural necessary conditions: freshness of Copy and vec results, no-mutation of arguments, pair-preserving Swap, Welford/incremental recurrences of Mean, GeoMean, Variance, weighted forms, decision lists for empty/degenerate input, vec element formulas; not rounding-error closeness","effect analysis (A) + C-swap + recurrence/formula conformance (B)"),
  "C10":("other","structural necessary conditions: R8 formula, clamping decision list, weighted scan recurrence, IQR, no-mutation; not monotonicity/order independence","formula conformance (engine B) + effect analysis (A) + integer discipline (D)"),
  "C13":("other","structural necessary conditions: value of every receiver field at exit of Add/Combine equals the online/pairwise-merge formula in three regimes; derived statistics; Combine never writes its argument","field-at-exit formula conformance via reaching stores and gating functions"),
  "C06":("other","structural necessary conditions: support decision lists, PMF/CDF/moment formulas, tail-flip identity, term-ratio recurrence, floor semantics of k; not 1e-10 accuracy","formula conformance (engine B) + D-floor"),
